@@ -35,13 +35,13 @@ HS = (
           bounded="the console protothread yields at most 3 times per character (the loop of console_process has no state of its own)",
           note="console_process = ring put + console_run until it no longer yields; console_run substituted by a stub that only answers and counts (its step contract is run_wait / run_spawn)") +
     _both("do_prompt", "h_prompt", ["do_prompt"], timeout=300) +
-    _both("tokenize", "h_tokenize", ["do_tokenize"], lp_unwind=82, timeout=900,
+    _both("tokenize", "h_tokenize", ["do_tokenize"], unwindset=["do_tokenize.0:81", "strlen.0:81"], solvers=("minisat", "cadical"), timeout=900,
           note="every content of the 80-byte line buffer: the loop bound 80 is a constant, unwound completely") +
-    [H("tokenize_equiv", F, "h_tok_equiv", ["do_tokenize"], defs=D + ["-DEQ_LEN=%d" % EQ_LEN], unwind=82, timeout=900,
+    [H("tokenize_equiv", F, "h_tok_equiv", ["do_tokenize"], defs=D + ["-DEQ_LEN=%d" % EQ_LEN], unwind=162, unwindset=["do_tokenize.0:%d" % (EQ_LEN + 2), "strlen.0:%d" % (EQ_LEN + 2)], solvers=("minisat", "cadical"), timeout=900,
        bounded="lines of at most %d characters over the alphabet {a, b, space, tab, ', \", NUL}, well-formed quoting" % EQ_LEN)] +
     [H("table_init", F, "h_table_init", ["cmd_table (static initialiser)"], defs=D, unwind=34, timeout=120, cover=False)] +
-    _both("find_command", "h_find", ["find_command"], lp_unwind=34, timeout=900, bounded=NAMES) +
-    _both("register", "h_register", ["console_register"], lp_unwind=34, timeout=900, bounded=NAMES) +
+    _both("find_command", "h_find", ["find_command"], solvers=("cadical", "minisat"), timeout=900, bounded=NAMES) +
+    _both("register", "h_register", ["console_register"], solvers=("cadical", "minisat"), timeout=900, bounded=NAMES) +
     _both("builtin", "h_builtin", ["console_echo", "console_unknown"], timeout=300) +
     _both("putchar", "h_putchar", ["console_putchar"], timeout=300) +
     _both("eval_step", "h_eval_step", ["console_eval"], replace_calls=STUBS_RUN, unwindset=RUNLOOP + ["console_eval.1:9"], timeout=600, cbmc_flags=["--object-bits", "12"],
